@@ -56,6 +56,8 @@ theorem commit_is_one_batch :
       ["s.Root", "s.setCommitID", "s.collectLssDeleteKeys", "s.recordStateChangeKeys", "s.Flush",
        "s.purgeLssTombstones", "s.writer.Repr", "s.writer.Count", "s.db.Apply", "s.MaybeCompact", "s.MaybeBackup"] ∧
     Gen.Store.flushCommits = ["s.sc.store.(TxnWriterI).Commit", "s.ss.Commit", "s.Indexer.db.Commit"] ∧
+    Gen.Store.flushShape = [("s.sc != nil", "s.sc.store.(TxnWriterI).Commit"), ("", "s.ss.Commit"),
+      ("", "s.Indexer.db.Commit"), ("", "return nil")] ∧
     Gen.Store.fieldTypes = [("Store.db", "*pebble.DB"), ("Store.writer", "*pebble.Batch"), ("Store.ss", "*Txn"),
       ("Store.sc", "*SMT"), ("Store.(embedded)", "*Indexer"), ("Indexer.db", "*Txn")] ∧
     Gen.Store.rootTxnReaderWriter = ["s.ss.reader", "s.ss.writer"] ∧
@@ -186,6 +188,64 @@ batch alone the store reopens at height 1 with the state of block 1 — and no i
 theorem split_commit_breaks_atomicity :
     let d := (run .split .lss [] demo).take 1
     version d = 1 ∧ stateScan d = [([1, 97], [1])] ∧ idxGet d [6, 1] = none := by
+  decide +kernel
+
+/-! ## a block's transactions run in nested stores -/
+
+/-- what `Store.Flush()` hands on, read off the source: statement by statement it commits the SMT's transaction
+(when there is one), the state transaction and the indexer transaction, unconditionally and for every kind of
+store — nested stores included — and nothing else -/
+def nestedFlushOfSource : NestedFlush :=
+  if Gen.Store.flushShape = [("s.sc != nil", "s.sc.store.(TxnWriterI).Commit"), ("", "s.ss.Commit"),
+       ("", "s.Indexer.db.Commit"), ("", "return nil")]
+  then .both else .stateOnly
+
+theorem nested_flush_both : nestedFlushOfSource = .both := by decide
+
+/-- **`nested_txs_all_or_nothing`** — a block whose transactions each ran in their own `NewTxn()`:
+* every flushed transaction's last state operations are the block's pending state operations, the index
+  entries it wrote (checkpoints, double signers) are among the block's index entries and the index keys it
+  deleted (`DeleteCheckpointsForChain`) among the block's index deletions — whatever came before it;
+* a discarded transaction leaves no trace in either;
+* and the block so formed is committed as ONE batch: every crash prefix holds all of it or none of it
+  (`crash_prefix` applied to the blocks `blockOfTxs … own txs`). -/
+theorem nested_txs_all_or_nothing (own : BlockIn) (hown : SSorted own.ops) (txs : List TxIn) (tx : TxIn) :
+    (tx.flush = true →
+      let b := blockOfTxs nestedFlushOfSource own (txs ++ [tx])
+      (∀ k op, lastWrite tx.ops k = some op → smGet b.ops k = some op) ∧
+      (∀ k v, lastWrite tx.idx k = some (.set v) → (k, v) ∈ b.idx) ∧
+      (∀ k, lastWrite tx.idx k = some .del → k ∈ b.idxDel)) ∧
+    (tx.flush = false → ∀ rest, blockOfTxs nestedFlushOfSource own (txs ++ tx :: rest) = blockOfTxs nestedFlushOfSource own (txs ++ rest)) ∧
+    (∀ d : Disk, (commitBlock shapeOfSource ptrOfSource d (blockOfTxs nestedFlushOfSource own (txs ++ [tx]))).length = d.length + 1) := by
+  rw [nested_flush_both, shape_single]
+  exact ⟨fun hf => flushed_tx_reaches_block own hown txs tx hf, fun hf rest => discarded_tx_vanishes .both own txs tx hf rest,
+    fun d => by simp [commitBlock, blockBatches]⟩
+
+/-- a block with a begin-block write and two transactions: the first slashes (state) and records the double
+signer and a checkpoint (index) and is flushed; the second is discarded -/
+def slashTxs : List TxIn :=
+  [{ ops := [([1, 98], .set [7])], idx := [([100, 1], .set [1]), ([99, 1], .set [0xCC])], flush := true },
+   { ops := [([1, 99], .set [9])], idx := [([100, 2], .set [1])], flush := false }]
+
+def slashOwn : BlockIn := { ops := [([1, 97], .set [1])], idx := [([6, 1], [0xAA])], root := [1] }
+
+/-- non-vacuity: with the source's `Flush`, after the commit — and after a crash that keeps the batch — the
+state has the slash AND the indexes have the evidence and the checkpoint; the discarded transaction is nowhere;
+a crash that loses the batch has neither -/
+example :
+    let d := commitBlock shapeOfSource ptrOfSource [] (blockOfTxs nestedFlushOfSource slashOwn slashTxs)
+    stateScan d = [([1, 97], [1]), ([1, 98], [7])] ∧ idxGet d [100, 1] = some [1] ∧ idxGet d [99, 1] = some [0xCC] ∧
+    idxGet d [100, 2] = none ∧ idxGet d [6, 1] = some [0xAA] ∧
+    stateScan (d.take 0) = [] ∧ idxGet (d.take 0) [100, 1] = none := by decide +kernel
+
+/-- **were `Flush` on a nested store to hand only the state transaction to the parent, the commit would not be
+all-or-nothing across state and indexes**: the committed state has the transaction's write (the slash) while
+the double-signer and checkpoint entries the same transaction indexed are not in the batch — not after the
+commit, not after any restart. -/
+theorem state_only_nested_flush_loses_index_writes :
+    let d := commitBlock .single .lss [] (blockOfTxs .stateOnly slashOwn slashTxs)
+    version d = 1 ∧ stateScan d = [([1, 97], [1]), ([1, 98], [7])] ∧
+    idxGet d [100, 1] = none ∧ idxGet d [99, 1] = none ∧ idxGet d [6, 1] = some [0xAA] := by
   decide +kernel
 
 /-! ## histories with `Rollback(target)` in the middle -/
